@@ -421,6 +421,12 @@ def build(inp) -> Case:
     else:
         index = [f"r{(5 * i) % 7}" for i in range(n)]
     df = pd.DataFrame(cols, index=index)
+    if nk == 1 and (len(rows) * 7 + len(gcols[0])) % 5 == 0 and all(isinstance(k[0], str) for k in keys):
+        # a categorical group column whose category order is not the lexical one (pd.cut(..., labels=[...]), an ordered
+        # survey scale): rows must still be labelled with the value of the rows they were computed from
+        cats = sorted({k[0] for k in keys})
+        cats = cats[1:] + cats[:1] if len(cats) > 1 else cats
+        df[gcols[0]] = pd.Categorical(df[gcols[0]], categories=cats[::-1], ordered=(len(rows) % 2 == 0))
     df_before = df.copy(deep=True)
     sarr = np.array(scores, dtype=float)
     ispos = np.array([lab == pos_label for lab in labels], dtype=bool)
@@ -551,7 +557,12 @@ def build(inp) -> Case:
             pre.append(Issue("PROPFAIL", "labels", f"{where}: row labels {obs_labels} are not {nk}-tuples of group values",
                              f"{sig0}/labels/arity"))
             continue
-        if obs_labels != distinct:
+        # A categorical group column has an order of its own and the frame's rows may follow it; the property fixes the
+        # labelling of the rows, not their order.  Such a frame is judged by the independent oracle below (every entry
+        # from the rows carrying the observed label) and not sent to the driver, whose row order is the sorted one.
+        perm_rows = (nk == 1 and isinstance(df[gcols[0]].dtype, pd.CategoricalDtype) and obs_labels != distinct
+                     and sorted(obs_labels) == distinct)
+        if obs_labels != distinct and not perm_rows:
             pre.append(Issue("PROPFAIL", "labels", f"{where}: row labels {obs_labels}; the distinct group value "
                              f"combinations of the data, sorted, are {distinct}", f"{sig0}/labels/rows"))
         obs_cols = []
@@ -590,6 +601,10 @@ def build(inp) -> Case:
             pre.append(Issue("PROPFAIL", cl, f"{where}: (row label, threshold, frame value, value computed directly from the "
                              f"rows with that label{'' if norm is None else ' and normalised ' + norm}): {bad[:4]}",
                              f"{sig0}/{cl}"))
+        if perm_rows:
+            skipped += 1
+            tags.append("categorical-row-order")
+            continue
         if norm == "by_min":
             for j in range(nt):
                 col = [raw_by_group[k][j] for k in distinct]
@@ -652,6 +667,36 @@ def build(inp) -> Case:
         lines.append(line("showbias", **kwl))
         metas.append({"where": where, "sig0": sig0, "V": V, "G": G, "nt": nt, "norm": norm, "boot": boot,
                       "obs_labels": obs_labels, "ts": ts, "E": E, "metric": metric, "sc": sc, "ec": ec})
+
+    # ---- the same frame object over time: its contents are changed in place (same shape), then the first query without
+    # bootstrap is asked again; the answer must be the one a freshly built frame with the new contents gets
+    plain = [qq for qq in inp["queries"] if not qq["boot"]]
+    if plain and n >= 2:
+        qq = plain[0]
+        kw = dict(group_columns=group_arg, label_column=lcol, score_column=scol, metric=qq["metric"],
+                  threshold=_threshold_arg(qq["ts"], qq["tform"]), normalize=qq["norm"], pos_label=pos_label,
+                  score_class=qq["sc"], equal_class=qq["ec"])
+        first = common.call(showbias, df, **kw)
+        new_scores = list(reversed(scores))
+        new_col = np.array(new_scores, dtype=np.float32) if inp.get("sdtype") == "f4" else new_scores
+        cols2 = dict(cols)
+        cols2[scol] = new_col
+        fresh_df = pd.DataFrame(cols2, index=index)
+        if isinstance(df[gcols[0]].dtype, pd.CategoricalDtype):
+            fresh_df[gcols[0]] = df[gcols[0]].values
+        df[scol] = new_col  # in place: same object, same shape
+        again, fresh = common.call(showbias, df, **kw), common.call(showbias, fresh_df, **kw)
+        evals += 2
+        if first[0] == "ok" and fresh[0] == "ok":
+            same_ = (again[0] == "ok" and again[1].values.shape == fresh[1].values.shape
+                     and list(again[1].values.index) == list(fresh[1].values.index)
+                     and np.array_equal(again[1].values.to_numpy(dtype=float), fresh[1].values.to_numpy(dtype=float), equal_nan=True))
+            if not same_:
+                pre.append(Issue("PROPFAIL", "entry", f"after the score column of the SAME frame object was replaced in place, showbias("
+                                 f"metric={qq['metric']}, thr={qq['ts']}, normalize={qq['norm']}) returned "
+                                 f"{again[1].values.to_numpy().tolist() if again[0] == 'ok' else again[1:]} but a fresh frame with the "
+                                 f"same contents gives {fresh[1].values.to_numpy().tolist()}", "showbias/history/in-place-update"))
+        df[scol] = cols[scol]
 
     inp["_evals"] = max(1, evals)
 
